@@ -191,9 +191,41 @@ def lambdaize(fn: ast.AST) -> Dict[str, ast.Lambda]:
     for n in ast.walk(fn):
         if isinstance(n, ast.FunctionDef) and n is not fn:
             lam = _lambda_of(n)
-            if lam is not None:
+            if lam is not None and _closure_stable(fn, n):
                 out[n.name] = lam
     return out
+
+
+def _closure_stable(fn: ast.AST, inner: ast.FunctionDef) -> bool:
+    """The free names of `inner` are bound once in `fn` (parameters, or a single plain assignment outside any loop), and the name
+    of `inner` itself is bound only by its def: replacing a use of the closure by its body then reads the same values."""
+    params = {a.arg for a in inner.args.args}
+    free = {x.id for b in inner.body for x in ast.walk(b) if isinstance(x, ast.Name) and isinstance(x.ctx, ast.Load)} - params
+    stores: Dict[str, int] = {}
+    in_loop: Set[str] = set()
+
+    def walk(node: ast.AST, loop: bool) -> None:
+        for ch in ast.iter_child_nodes(node):
+            if ch is inner:
+                continue
+            if isinstance(ch, ast.Name) and isinstance(ch.ctx, (ast.Store, ast.Del)):
+                stores[ch.id] = stores.get(ch.id, 0) + 1
+                if loop:
+                    in_loop.add(ch.id)
+            if isinstance(ch, (ast.FunctionDef, ast.ClassDef)) and ch is not inner:
+                stores[ch.name] = stores.get(ch.name, 0) + 1
+            walk(ch, loop or isinstance(ch, (ast.For, ast.While, ast.comprehension)))
+
+    walk(fn, False)
+    fparams = {a.arg for a in getattr(getattr(fn, "args", None), "args", [])}
+    for name in free:
+        k = stores.get(name, 0)
+        if name in fparams and k == 0:
+            continue
+        if name not in fparams and k <= 1 and name not in in_loop:
+            continue
+        return False
+    return stores.get(inner.name, 0) == 0
 
 
 def alpha(lam: ast.Lambda, names: Sequence[str]) -> ast.Lambda:
